@@ -4,6 +4,10 @@ package k8s
 
 import (
 	"context"
+	"fmt"
+	"io"
+	"log/slog"
+	"path/filepath"
 	"sort"
 	"strings"
 
@@ -14,20 +18,26 @@ import (
 	nl "github.com/nginx/kubernetes-ingress/internal/logger"
 	"github.com/nginx/kubernetes-ingress/internal/nginx"
 	"github.com/nginx/kubernetes-ingress/pkg/apis/configuration/validation"
+	networking "k8s.io/api/networking/v1"
+	meta_v1 "k8s.io/apimachinery/pkg/apis/meta/v1"
 	"k8s.io/apimachinery/pkg/apis/meta/v1/unstructured"
+	"k8s.io/apimachinery/pkg/runtime"
 	"k8s.io/client-go/tools/cache"
-	"k8s.io/client-go/tools/record"
 )
 
-// VerifC19 drives the controller side of the APUserSig path for property C19: the real
-// syncAppProtectUserSig -> processAppProtectUserSigChange -> Configurator.RefreshAppProtectUserSigs
-// over the real appprotect.Configuration; only the NGINX manager is replaced by a recorder of the
-// App Protect files it is asked to write.  No Ingress / VirtualServer exists, so policy changes
-// reach no resource; what is observed is the user-signature folder and its index.
+// VerifC19 drives the controller side of the App Protect WAF path for property C19: the real
+// syncAppProtectUserSig -> processAppProtectUserSigChange -> Configurator.RefreshAppProtectUserSigs and
+// the real cleanupUnwatchedAppWafResources (a namespace stops being watched) over the real
+// appprotect.Configuration.  Replaced by recorders: the NGINX manager (App Protect files) and the event
+// recorder.  For every APPolicy key of the universe one Ingress (namespace verif-ing) carries the
+// app-protect-policy annotation naming it, so a processed change that contains the policy regenerates
+// that Ingress through the real createExtendedResources / Configurator and records an event on it:
+// the events on the Ingresses tell which policies reached processing.
 type VerifC19 struct {
-	lbc   *LoadBalancerController
-	m     *verifC19Manager
-	store cache.Store
+	lbc  *LoadBalancerController
+	m    *verifC19Manager
+	rec  *verifC19Recorder
+	nsis map[string]*namespacedInformer
 }
 
 type verifC19Manager struct {
@@ -49,68 +59,160 @@ func (m *verifC19Manager) ClearAppProtectFolder(name string) {
 	}
 }
 
+// verifC19Recorder keeps the events recorded on App Protect objects: "<kind>:<ns>/<name>|<message>"
+type verifC19Recorder struct {
+	events []string
+	asked  []string // APPolicy keys whose Ingress was regenerated (an event was recorded on it)
+}
+
+func (r *verifC19Recorder) Event(object runtime.Object, _, reason, message string) {
+	switch o := object.(type) {
+	case *unstructured.Unstructured:
+		r.events = append(r.events, reason+"|"+o.GetKind()+":"+o.GetNamespace()+"/"+o.GetName()+"|"+message)
+	case *networking.Ingress:
+		r.asked = append(r.asked, o.Annotations[configs.AppProtectPolicyAnnotation])
+	}
+}
+
+func (r *verifC19Recorder) Eventf(object runtime.Object, t, reason, f string, a ...interface{}) {
+	r.Event(object, t, reason, fmt.Sprintf(f, a...))
+}
+
+func (r *verifC19Recorder) AnnotatedEventf(object runtime.Object, _ map[string]string, t, reason, f string, a ...interface{}) {
+	r.Event(object, t, reason, fmt.Sprintf(f, a...))
+}
+
 const (
 	verifC19Folder = "/etc/nginx/waf/nac-usersigs/"
 	verifC19Index  = "/etc/nginx/waf/nac-usersigs/index.conf"
 )
 
-// VerifC19New builds the controller fragment (fields the APUserSig path reads).
-func VerifC19New() *VerifC19 {
-	ctx := context.Background()
-	logger := nl.LoggerFromContext(ctx)
+// VerifC19New builds the controller fragment (fields the App Protect WAF path reads), watching the
+// given namespaces one informer group each; policyKeys are the APPolicy keys that get an Ingress;
+// repoDir locates the real templates.
+func VerifC19New(namespaces, policyKeys []string, repoDir string) (*VerifC19, error) {
+	logger := slog.New(slog.NewTextHandler(io.Discard, &slog.HandlerOptions{Level: slog.Level(100)}))
+	ctx := nl.ContextWithLogger(context.Background(), logger)
 	m := &verifC19Manager{FakeManager: nginx.NewFakeManager("/etc/nginx"), files: map[string]string{}}
+	base := filepath.Join(repoDir, "internal", "configs")
+	te1, err := version1.NewTemplateExecutor(filepath.Join(base, "version1/nginx-plus.tmpl"), filepath.Join(base, "version1/nginx-plus.ingress.tmpl"))
+	if err != nil {
+		return nil, err
+	}
+	te2, err := version2.NewTemplateExecutor(filepath.Join(base, "version2/nginx-plus.virtualserver.tmpl"), filepath.Join(base, "version2/nginx-plus.transportserver.tmpl"))
+	if err != nil {
+		return nil, err
+	}
 	cnf := configs.NewConfigurator(configs.ConfiguratorParams{
 		NginxManager:       m,
-		StaticCfgParams:    &configs.StaticConfigParams{},
+		StaticCfgParams:    &configs.StaticConfigParams{MainAppProtectLoadModule: true},
 		Config:             configs.NewDefaultConfigParams(ctx, true),
-		TemplateExecutor:   &version1.TemplateExecutor{},
-		TemplateExecutorV2: &version2.TemplateExecutor{},
+		TemplateExecutor:   te1,
+		TemplateExecutorV2: te2,
 		IsPlus:             true,
 	})
-	store := cache.NewStore(cache.DeletionHandlingMetaNamespaceKeyFunc)
+	newStore := func() cache.Store { return cache.NewStore(cache.DeletionHandlingMetaNamespaceKeyFunc) }
+	rec := &verifC19Recorder{}
 	lbc := &LoadBalancerController{
 		configurator:            cnf,
 		appProtectEnabled:       true,
 		isNginxPlus:             true,
 		ingressClass:            "nginx",
 		appProtectConfiguration: appprotect.NewConfiguration(logger),
-		recorder:                record.NewFakeRecorder(1 << 14),
+		recorder:                rec,
 		Logger:                  logger,
-		namespacedInformers: map[string]*namespacedInformer{
-			"": {appProtectUserSigLister: store, policyLister: cache.NewStore(cache.DeletionHandlingMetaNamespaceKeyFunc), appProtectEnabled: true},
-		},
+		namespacedInformers:     map[string]*namespacedInformer{},
+	}
+	v := &VerifC19{lbc: lbc, m: m, rec: rec, nsis: map[string]*namespacedInformer{}}
+	for _, ns := range append([]string{"verif-ing"}, namespaces...) {
+		nsi := &namespacedInformer{namespace: ns, appProtectEnabled: true, appProtectPolicyLister: newStore(),
+			appProtectLogConfLister: newStore(), appProtectUserSigLister: newStore(), policyLister: newStore(), svcLister: newStore()}
+		lbc.namespacedInformers[ns] = nsi
+		v.nsis[ns] = nsi
 	}
 	lbc.configuration = NewConfiguration(lbc.HasCorrectIngressClass, true, true, false, false,
 		validation.NewVirtualServerValidator(validation.IsPlus(true)),
 		validation.NewGlobalConfigurationValidator(map[int]bool{}),
 		validation.NewTransportServerValidator(false, false, true), false, false, false, false)
+	class := "nginx"
+	pt := networking.PathTypePrefix
+	for i, pk := range policyKeys {
+		name := "uses-" + strings.ReplaceAll(pk, "/", "-")
+		ing := &networking.Ingress{
+			ObjectMeta: meta_v1.ObjectMeta{Namespace: "verif-ing", Name: name,
+				Annotations: map[string]string{configs.AppProtectPolicyAnnotation: pk, "appprotect.f5.com/app-protect-enable": "True"}},
+			Spec: networking.IngressSpec{IngressClassName: &class, Rules: []networking.IngressRule{{Host: fmt.Sprintf("h%d.example.com", i),
+				IngressRuleValue: networking.IngressRuleValue{HTTP: &networking.HTTPIngressRuleValue{Paths: []networking.HTTPIngressPath{{
+					Path: "/", PathType: &pt, Backend: networking.IngressBackend{Service: &networking.IngressServiceBackend{Name: "svc",
+						Port: networking.ServiceBackendPort{Number: 80}}}}}}}}}},
+		}
+		_, problems := lbc.configuration.AddOrUpdateIngress(ing)
+		if len(problems) > 0 {
+			return nil, fmt.Errorf("Ingress %s was not accepted by the Configuration: %v", name, problems[0].Message)
+		}
+	}
+	if len(lbc.configuration.hosts) != len(policyKeys) {
+		return nil, fmt.Errorf("%d of %d Ingresses hold a host", len(lbc.configuration.hosts), len(policyKeys))
+	}
 	lbc.syncQueue = newTaskQueue(logger, func(task) {})
-	return &VerifC19{lbc: lbc, m: m, store: store}
+	return v, nil
 }
 
 // Config is the real appprotect.Configuration of the controller.
 func (v *VerifC19) Config() appprotect.Configuration { return v.lbc.appProtectConfiguration }
 
-// SyncUserSig plays the informer and the worker for one APUserSig event: obj == nil means the
-// object is gone from the cache; then the real syncAppProtectUserSig runs for the key.
-func (v *VerifC19) SyncUserSig(key string, obj *unstructured.Unstructured) {
+// Store plays the informer cache for APPolicy (kind 0), APLogConf (1), APUserSig (2): obj == nil
+// removes the key.
+func (v *VerifC19) Store(kind int, ns, key string, obj *unstructured.Unstructured) {
+	nsi := v.nsis[ns]
+	if nsi == nil {
+		return
+	}
+	st := []cache.Store{nsi.appProtectPolicyLister, nsi.appProtectLogConfLister, nsi.appProtectUserSigLister}[kind]
 	if obj == nil {
-		if old, ok, _ := v.store.GetByKey(key); ok {
-			_ = v.store.Delete(old)
+		if old, ok, _ := st.GetByKey(key); ok {
+			_ = st.Delete(old)
 		}
-	} else {
-		_ = v.store.Add(obj)
+		return
 	}
+	_ = st.Add(obj)
+}
+
+// SyncUserSig runs the real syncAppProtectUserSig for the key (after Store changed the cache).
+func (v *VerifC19) SyncUserSig(key string) {
 	v.lbc.syncAppProtectUserSig(task{Kind: appProtectUserSig, Key: key})
-	// drain the event recorder so that it never blocks
-	for {
-		select {
-		case <-v.lbc.recorder.(*record.FakeRecorder).Events:
-			continue
-		default:
-		}
-		break
+}
+
+// Unwatch runs the real cleanupUnwatchedAppWafResources for the namespace (what
+// removeNamespacedInformer's caller does when the namespace loses its label or is deleted), then
+// empties the caches of the namespace.
+func (v *VerifC19) Unwatch(ns string) {
+	nsi := v.nsis[ns]
+	if nsi == nil {
+		return
 	}
+	v.lbc.cleanupUnwatchedAppWafResources(nsi)
+	for _, st := range []cache.Store{nsi.appProtectPolicyLister, nsi.appProtectLogConfLister, nsi.appProtectUserSigLister} {
+		for _, o := range st.List() {
+			_ = st.Delete(o)
+		}
+	}
+}
+
+// TakeAsked returns (and forgets) the APPolicy keys whose Ingress processed changes regenerated;
+// TakeEvents the events recorded on App Protect objects.
+func (v *VerifC19) TakeAsked() []string {
+	out := v.rec.asked
+	v.rec.asked = nil
+	sort.Strings(out)
+	return out
+}
+
+func (v *VerifC19) TakeEvents() []string {
+	out := v.rec.events
+	v.rec.events = nil
+	sort.Strings(out)
+	return out
 }
 
 // Loaded returns the files index.conf tells NGINX to load (sorted, folder prefix removed);
